@@ -1,4 +1,6 @@
-CONSTANTS Projects <- QuickProjects
+CONSTANTS
+  Projects <- NoUse
+  Tier = "quick"
 SPECIFICATION MCSpec
 INVARIANTS ExactlyNeeds NeverTooMuch EmitCases
 PROPERTY Termination
